@@ -150,6 +150,9 @@ class CompressedSerde:
 
         if len(value) > self._min_compress_len > 0:
             old_value = value
+            if isinstance(value, str):
+                # e.g. integers are serialized as text; compress() needs bytes
+                value = value.encode("utf8")
             value = self._compress(value)
             # Don't use the compressed value if our end result is actually
             # larger uncompressed.
